@@ -9,7 +9,7 @@ CHECKS = {
     "C01": dict(
         cat="exploration", ref="4 C01",
         technique="property-based testing (proptest generators + exhaustive small scope) against a brute-force reference semantics",
-        text="Generated frameworks (mixed shapes, four presentations incl. sparse ids and duplicate attack lines, <=9/13 arguments) plus all digraphs on <=3 (quick) / <=4 (thorough) arguments; every SE problem with every selectable encoder must return a member of the brute-force extension family (validity, not a golden output), None only when no stable extension exists, no duplicate or foreign members. Exploration, not proof: the right level because the domain is infinite and the oracle exact only on small graphs. About 1% of the cases are disjoint unions of 3-30 small components (20-200 arguments, interleaved ids, optionally joined into one connected component through a defeated hub) whose exact answers follow by composition from brute force per component.",
+        text="Generated frameworks (mixed shapes, four presentations incl. sparse ids and duplicate attack lines, <=9/13 arguments) plus all digraphs on <=4 arguments (both tiers); every SE problem with every selectable encoder must return a member of the brute-force extension family (validity, not a golden output), None only when no stable extension exists, no duplicate or foreign members. Exploration, not proof: the right level because the domain is infinite and the oracle exact only on small graphs. About 1% of the cases are disjoint unions of 3-30 small components (20-200 arguments, interleaved ids, optionally joined into one connected component through a defeated hub) whose exact answers follow by composition from brute force per component.",
         note="trusted: oracle.rs (self-tested on all graphs n<=3 at start-up), CaDiCaL; exact only for <=13 arguments"),
     "C02": dict(
         cat="exploration", ref="4 C02/C03",
